@@ -5,7 +5,8 @@ From TS Require Import Model.Str Model.Outcome Model.Unicode Model.Syntax Model.
                        Model.Lang.Scala Model.Lang.Go Model.Lang.Python.
 From TS Require Import Spec.SerdeCase Spec.C16Spec Spec.Serde Spec.C03Spec Spec.C01Spec.
 From TS Require Import Model.Reconcile.
-From TS Require Proofs.C01 Proofs.C01Front Proofs.C01Layout.
+From Coq Require Import Permutation.
+From TS Require Proofs.C01 Proofs.C01Front Proofs.C01Layout Proofs.C01File.
 Import ListNotations.
 Local Open Scope N_scope.
 
@@ -167,3 +168,72 @@ Theorem C01_nonvacuous :
               dom_C01 Scala [[lit "user-id"; lit "class"; lit "in"]] = false.
 Proof. exact Proofs.C01Front.C01_nonvacuous. Qed.
 Print Assumptions C01_nonvacuous.
+
+(* The source-side quantifier alone puts serde's keys into the key domain of every language that binds
+   keys (TypeScript, Kotlin, Swift, Go, Python): the 8 rules map conventional identifiers to non-empty
+   strings over [A-Za-z0-9_-]. Scala additionally needs "no '-'", which is part of dom_C01. *)
+Theorem C01_source_domain_implies_key_domain :
+  forall (T : list str) (l : lang) (it : item) (expected : list (list str)),
+    l <> Scala -> src_dom T it = true -> src_groups T it = Some expected -> dom_C01 l expected = true.
+Proof. exact Proofs.C01Front.src_dom_key_dom. Qed.
+Print Assumptions C01_source_domain_implies_key_domain.
+
+(* so for those five languages the end-to-end statement needs the source-side quantifier only *)
+Theorem C01_field_keys_binding_languages :
+  forall (uc : unicode), unicode_ok uc -> forall (tstr : str -> option ty) (T : list str)
+         (l : lang) (it : item) (rit : ritem) (expected : list (list str)) (gs : list (list member)),
+    l <> Scala ->
+    Proofs.C01Front.parses uc tstr T it rit -> Proofs.C01Front.c01_shape it rit -> src_dom T it = true ->
+    src_groups T it = Some expected ->
+    Proofs.C01.groups_fit l (ir_groups rit) gs ->
+    good_groups_C01 l expected gs = true.
+Proof. exact Proofs.C01Front.C01_end_to_end_binding. Qed.
+Print Assumptions C01_field_keys_binding_languages.
+
+(* ---------------------------------------------------------------------------------------------
+   Whole files: whenever a back end produces the declarations of a file, the member lists the file
+   declares are - in output order, one to one - the member lists of a permutation of the items it was
+   handed (aliases, structs, enums, consts after reconcile; Scala keeps that order), every member
+   binding the IR's key; the helper definitions a back end adds declare no members. *)
+Theorem C01_file_typescript :
+  forall uc cfg pd fd, ts_file_decls uc cfg pd = Ok fd ->
+    exists items, Permutation items (items_of pd) /\
+                  Proofs.C01.groups_fit TypeScript (flat_map ir_groups items) (obs_groups (fd_decls fd)).
+Proof. exact Proofs.C01File.ts_file_fits. Qed.
+Print Assumptions C01_file_typescript.
+
+Theorem C01_file_kotlin :
+  forall uc cfg pd fd, kt_file_decls uc cfg pd = Ok fd ->
+    exists items, Permutation items (items_of pd) /\
+                  Proofs.C01.groups_fit Kotlin (flat_map ir_groups items) (obs_groups (fd_decls fd)).
+Proof. exact Proofs.C01File.kt_file_fits. Qed.
+Print Assumptions C01_file_kotlin.
+
+Theorem C01_file_swift :
+  forall uc cfg pd fd, sw_file_decls uc cfg pd = Ok fd ->
+    exists items, Permutation items (items_of pd) /\
+                  Proofs.C01.groups_fit Swift (flat_map ir_groups items) (obs_groups (fd_decls fd)).
+Proof. exact Proofs.C01File.sw_file_fits. Qed.
+Print Assumptions C01_file_swift.
+
+Theorem C01_file_scala :
+  forall uc cfg pd fd, sc_file_decls uc cfg pd = Ok fd ->
+    Proofs.C01.groups_fit Scala
+      (flat_map ir_groups (map ItAlias (p_aliases pd) ++ map ItStruct (p_structs pd) ++ map ItEnum (p_enums pd)))
+      (obs_groups (fd_decls fd)).
+Proof. exact Proofs.C01File.sc_file_fits. Qed.
+Print Assumptions C01_file_scala.
+
+Theorem C01_file_go :
+  forall uc cfg pd fd, go_file_decls uc cfg pd = Ok fd ->
+    exists items, Permutation items (items_of pd) /\
+                  Proofs.C01.groups_fit Go (flat_map ir_groups items) (obs_groups (fd_decls fd)).
+Proof. exact Proofs.C01File.go_file_fits. Qed.
+Print Assumptions C01_file_go.
+
+Theorem C01_file_python :
+  forall uc cfg pd fd, py_file_decls uc cfg pd = Ok fd ->
+    exists items, Permutation items (items_of pd) /\
+                  Proofs.C01.groups_fit Python (flat_map ir_groups items) (obs_groups (fd_decls fd)).
+Proof. exact Proofs.C01File.py_file_fits. Qed.
+Print Assumptions C01_file_python.
